@@ -42,7 +42,7 @@ BUDGET = {
 REQUIRED_PROBES = ["not_done_polls", "error_history", "response_history", "unimported_type", "fully_qualified_name",
                    "relative_name", "empty_response", "raw_operation", "poll_fault_retried", "poll_fault_surfaced",
                    "initial_done", "async_future", "metadata_checked", "long_poll_over_60s", "concurrent_futures", "rest_future",
-                   "rest_polls", "rest_poll_rule_with_additional_bindings", "caller_cancelled_while_polling"]
+                   "rest_polls", "rest_poll_rule_with_additional_bindings", "caller_cancelled_while_polling", "long_poll_outage_ridden_out"]
 ASSUMPTIONS = ["operation_info names that are relative AND nested (Outer.Inner) are excluded (DESIGN.md section 3)",
                "api-core's default polling policy (1 s x1.5 up to 20 s, 900 s budget) is the reference for liveness"]
 
@@ -117,6 +117,18 @@ def gen_scenarios(spec, rng, n):
             actors[j % nact]["ops"].append(op)
         sc = {"client": client, "actors": [a for a in actors if a["ops"]],
               "jitter_default": rng.choice([1.0, 1.0, 0.5, 0.75, 0.25])}
+        if client == "sync" and rng.random() < 0.12:
+            # a LONG outage of GetOperation (60 s < outage < 600 s): api-core's operations client retries UNAVAILABLE
+            # with 0.1 s x1.3 backoff for up to 600 s, so the future must ride it out and deliver the result
+            cand = [o for a in sc["actors"] for o in a["ops"] if not o.get("raw") and not o.get("initial_done") and "response" in (o.get("final") or {})]
+            if cand:
+                o = rng.choice(cand)
+                o["done_at"] = min(o["done_at"], 150.0)
+                j0 = rng.randint(1, 2)
+                o["poll_script"] = {str(j): "UNAVAILABLE" for j in range(j0, j0 + rng.randint(23, 27))}
+                o["poll_lat"] = 0.0
+                o["long_outage"] = True
+                sc["jitter_default"] = rng.choice([0.75, 1.0])
         if threads and len(sc["actors"]) > 1:
             sc["threads"] = True
             sc["sched_seed"] = rng.randrange(2 ** 32)
@@ -455,7 +467,11 @@ def judge_op(spec, codec, scenario, op, evs, probes):
     if not op.get("initial_done"):
         t_inv = next(e for e in evs if e["k"] == "invoke")["t"]
         ready = max(t_inv + op["done_at"], t_last_fault or 0.0)
-        bound = ready + MAX_POLL_INTERVAL[scenario["client"]] + 2 * op.get("poll_lat", 0.0) + 1e-3
+        interval = MAX_POLL_INTERVAL[scenario["client"]]
+        if op.get("long_outage"):
+            _bump(probes, "long_poll_outage_ridden_out")
+            interval = 61.0        # the retry loop of the failing GetOperation backs off up to 60 s before its next attempt
+        bound = ready + interval + 2 * op.get("poll_lat", 0.0) + 1e-3
         if res["t"] > bound:
             return V("liveness", f"result delivered at t={res['t']:.3f}; the operation was done (and faults had stopped) at "
                      f"t={ready:.3f}: bound is {bound:.3f}")
